@@ -26,33 +26,91 @@ def event_sig(e):
             e.site, eff.t if eff is not None else None, tuple(a.t for a in e.args))
 
 
+
+class TrackDict(dict):
+    """dict that logs reads of keys it did not write itself (dependencies on the caller's state)"""
+    __slots__ = ("log", "own", "gone", "whole")
+
+    def __init__(self, base, log):
+        dict.__init__(self, base)
+        self.log = log
+        self.own = set()
+        self.gone = set()
+        self.whole = False
+
+    def _r(self, k):
+        if k not in self.own and k not in self.gone and k not in self.log:
+            self.log[k] = dict.get(self, k, _MISSING)
+
+    def __getitem__(self, k):
+        self._r(k)
+        return dict.__getitem__(self, k)
+
+    def get(self, k, d=None):
+        self._r(k)
+        return dict.get(self, k, d)
+
+    def __contains__(self, k):
+        self._r(k)
+        return dict.__contains__(self, k)
+
+    def __setitem__(self, k, v):
+        if k not in self.own and k not in self.gone and k not in self.log:
+            self.log[k] = dict.get(self, k, _MISSING)
+        self.own.add(k)
+        self.gone.discard(k)
+        dict.__setitem__(self, k, v)
+
+    def setdefault(self, k, d=None):
+        if dict.__contains__(self, k):
+            return self[k]
+        self[k] = d
+        return d
+
+    def pop(self, k, *d):
+        self._r(k)
+        if dict.__contains__(self, k):
+            self.gone.add(k)
+            self.own.discard(k)
+        return dict.pop(self, k, *d)
+
+    def __delitem__(self, k):
+        self._r(k)
+        self.gone.add(k)
+        self.own.discard(k)
+        dict.__delitem__(self, k)
+
+    def __iter__(self):
+        self.whole = True
+        return dict.__iter__(self)
+
+    def items(self):
+        self.whole = True
+        return dict.items(self)
+
+    def keys(self):
+        self.whole = True
+        return dict.keys(self)
+
+    def update(self, other):
+        for k, v in other.items():
+            self[k] = v
+
+
+STATE = ("facts", "valof", "notvals", "refined", "heap", "store", "uids")
+
+
+def same(a, b):
+    if a is b:
+        return True
+    if a is _MISSING or b is _MISSING:
+        return False
+    ta = getattr(a, "t", a)
+    tb = getattr(b, "t", b)
+    return ta == tb
+
+
 class CompMixin:
-
-    def snapshot(self):
-        return {
-            "facts": dict(self.facts), "valof": dict(self.valof),
-            "notvals": {k: set(v) for k, v in self.notvals.items()}, "refined": dict(self.refined),
-            "heap": dict(self.heap), "store": dict(self.store), "termty": self.termty, "bound": self.bound,
-            "closures": self.closures, "caught": self.caught, "uids": dict(self.uids),
-        }
-
-    def load_snapshot(self, s):
-        self.facts = dict(s["facts"])
-        self.valof = dict(s["valof"])
-        self.notvals = {k: set(v) for k, v in s["notvals"].items()}
-        self.refined = dict(s["refined"])
-        self.heap = dict(s["heap"])
-        self.store = dict(s["store"])
-        self.termty = dict(s["termty"])
-        self.bound = dict(s["bound"])
-        self.closures = dict(s["closures"])
-        self.caught = dict(s["caught"])
-        self.uids = dict(s["uids"])
-
-    def state_key(self):
-        return (frozenset(self.facts.items()),
-                frozenset((k, v.t) for k, v in self.store.items()),
-                frozenset((k, v.t) for k, v in self.heap.items()))
 
     def can_compose(self, f, closure):
         if not self.cfg.compose or closure is not None:
@@ -68,36 +126,77 @@ class CompMixin:
     def call_composed(self, f, env, selfv, node, clsctx):
         cfg = self.cfg
         catch = tuple(sorted(set(self.outer_catch) | {c for fr in self.frames for cs in fr.try_catch for c in cs}))
-        key = (f.qual, tuple(sorted((k, v.t) for k, v in env.items())), selfv.t if selfv is not None else None,
-               catch, self.state_key())
-        outcomes = cfg.comp_cache.get(key)
+        key = (f.qual, tuple(sorted((k, v.t) for k, v in env.items())), selfv.t if selfv is not None else None, catch)
+        entries = cfg.comp_cache.setdefault(key, [])
+        outcomes = None
+        for deps, oc in entries:
+            ok = True
+            for name, d in deps.items():
+                cur = getattr(self, name)
+                for k, v in d.items():
+                    if not same(dict.get(cur, k, _MISSING), v):
+                        ok = False
+                        break
+                if not ok:
+                    break
+            if ok:
+                outcomes = oc
+                cfg.comp_stats["hits"] = cfg.comp_stats.get("hits", 0) + 1
+                self.propagate_deps(deps)
+                break
         if outcomes is None:
-            base = self.snapshot()
+            logs = {name: {} for name in STATE}
+            base = {name: dict.copy(getattr(self, name)) for name in STATE}
+            shared = {"termty": self.termty, "bound": self.bound, "closures": self.closures, "caught": self.caught}
             cls = type(self)
+            subs = []
 
             def factory(decisions):
                 sub = cls(cfg, [], f, None, None)
-                sub.load_snapshot(base)
+                for name in STATE:
+                    setattr(sub, name, TrackDict(base[name], logs[name]))
+                sub.termty = dict(shared["termty"])
+                sub.bound = dict(shared["bound"])
+                sub.closures = dict(shared["closures"])
+                sub.caught = dict(shared["caught"])
                 sub.outer_catch = catch
                 sub.decisions = list(decisions)
                 sub.pending = dict(decisions)
                 sub.sub_env = dict(env)
                 sub.sub_self = selfv
                 sub.sub_clsctx = clsctx
+                subs.append(sub)
                 return sub
             paths, runs = Explorer(factory, cfg.comp_max_paths).run()
             cfg.comp_stats["nested_runs"] = cfg.comp_stats.get("nested_runs", 0) + runs
-            outcomes = self.group_outcomes(paths, base)
-            cfg.comp_cache[key] = outcomes
-        else:
-            cfg.comp_stats["hits"] = cfg.comp_stats.get("hits", 0) + 1
+            outcomes = self.group_outcomes(paths, f)
+            self.propagate_deps(logs)
+            whole = any(getattr(sub, name).whole for sub in subs for name in STATE)
+            if whole:
+                for name in STATE:
+                    cur = getattr(self, name)
+                    if isinstance(cur, TrackDict):
+                        cur.whole = True
+            if not whole:
+                entries.append((logs, outcomes))
+                if len(entries) > 64:
+                    del entries[0]
         if len(outcomes) == 1:
             k = 0
         else:
             k = self.decide(("outcome", f.qual, self.here(node), self.fresh(node)), tuple(range(len(outcomes))))
         return self.adopt(outcomes[k], f, node)
 
-    def group_outcomes(self, paths, base):
+    def propagate_deps(self, deps):
+        """what a nested exploration read from my state, I have read too (transitive dependencies)"""
+        for name, d in deps.items():
+            cur = getattr(self, name)
+            if isinstance(cur, TrackDict):
+                for k in d:
+                    cur._r(k)
+
+    def group_outcomes(self, paths, f=None):
+        coarse = f is not None and self.cfg.coarse is not None and self.cfg.coarse(f)
         groups = {}
         order = []
         for p in paths:
@@ -107,10 +206,29 @@ class CompMixin:
             else:
                 x = p.terminal[1]
                 term = ("raise", x.cls, x.site)
-            sd = frozenset((k, v.t) for k, v in it.store.items() if base["store"].get(k) is not v)
-            hd = frozenset((k, v.t) for k, v in it.heap.items() if base["heap"].get(k) is not v)
+            delta = {}
+            dsig = []
+            for name in ("heap", "store", "uids", "valof", "notvals", "refined"):
+                d = getattr(it, name)
+                ch = {k: dict.__getitem__(d, k) for k in d.own}
+                delta[name] = (ch, set(d.gone))
+                if name in ("heap", "store"):
+                    dsig.append(frozenset((k, getattr(v, "t", v)) for k, v in ch.items()))
+                    dsig.append(frozenset(d.gone))
+            p.delta = delta
             ys = tuple(y.t for y in (p.yields or ()))
-            sig = (term, tuple(event_sig(e) for e in p.events), sd, hd, ys)
+            if coarse:
+                evs = frozenset((e.op, e.key.t if e.key is not None else None) for e in p.events if self.cfg.sig_keep(e))
+                if term[0] == "raise":
+                    term = ("raise", term[1])
+                dsig = [frozenset(k for k, _ in x) if i % 2 == 0 else x for i, x in enumerate(dsig)]
+            elif self.cfg.sig_mode == "writes":
+                evs = tuple((e.kind, e.op, e.recv.t if e.recv is not None else None,
+                             e.key.t if e.key is not None else None, e.site)
+                            for e in p.events if self.cfg.sig_keep(e))
+            else:
+                evs = tuple(event_sig(e) for e in p.events)
+            sig = (term, evs, tuple(dsig), ys)
             g = groups.get(sig)
             if g is None:
                 g = Outcome(p, sig)
@@ -121,12 +239,14 @@ class CompMixin:
                 g.n += 1
                 d = dict(p.decisions)
                 g.implied = {a: v for a, v in g.implied.items() if d.get(a, _MISSING) == v}
+        for g in order:
+            # facts that hold on every member path and are implied by the outcome
+            pass
         return order
 
     def adopt(self, oc, f, node):
         rep = oc.rep
         it = rep.interp
-        fr = self.frames[-1]
         stack = tuple(x.func.qual for x in self.frames if x.func is not None)
         ctrl = tuple(c for x in self.frames for c in x.ctrl)
         loop = tuple(x for y in self.frames for x in y.loop)
@@ -136,30 +256,30 @@ class CompMixin:
                        loop + e.loop, handler or e.handler)
             ne.idx = len(self.events)
             self.events.append(ne)
-        self.heap = dict(it.heap)
-        self.store = dict(it.store)
+        for name in ("heap", "store", "uids"):
+            ch, gone = rep.delta[name]
+            cur = getattr(self, name)
+            for k in gone:
+                cur.pop(k, None)
+            for k, v in ch.items():
+                cur[k] = v
         self.termty.update(it.termty)
         self.bound.update(it.bound)
         self.closures.update(it.closures)
         self.caught.update(it.caught)
-        self.uids = dict(it.uids)
         for a, v in oc.implied.items():
             if a not in self.facts:
                 self.facts[a] = v
                 self._apply_fact(a, v)
-        for t, ty in it.refined.items():
-            # type refinements that hold on every member path are implied by ('isinst', ...) facts above
-            pass
         self.notes.append(("outcome", f.qual, self.here(node), oc.n, tuple(rep.decisions)))
         if rep.terminal[0] == "return":
             v = rep.terminal[1]
             if f.is_generator():
                 ys = rep.yields or []
                 ety = set()
-                for y in ys:
-                    ety |= {("elemty", t) for t in y.ty}
                 dep = set()
                 for y in ys:
+                    ety |= {("elemty", t) for t in y.ty}
                     dep |= y.dep
                 return V(("gen", tuple(y.t for y in ys)), [("py", "gen")] + list(ety), dep)
             return v
